@@ -213,7 +213,9 @@ pub fn gen_recipe(src: &mut Src, cap_bytes: usize, max_stages: usize) -> Recipe 
         Ty::C32 => 8,
     };
     let cap = cap_bytes / esz;
-    let src_len = match src.below(10) {
+    let src_len = match src.below(if crate::engine::deep() { 12 } else { 10 }) {
+        10 => 7 * cap + src.below(100),
+        11 => src.range(2 * cap, 5 * cap),
         0 => 0,
         1 => 1,
         2 => cap - 1,
